@@ -504,4 +504,4 @@ impl TinyLFU {
 
 #[cfg(all(transparencies_stretto_verif, any(kani, test)))]
 #[path = "/verif/harness/h_policy.rs"]
-mod verif_harness;
+pub(crate) mod verif_harness;
